@@ -469,15 +469,18 @@ def sdp_service_search(tid: int, uuids16, max_count=10, cont=b'\x00') -> bytes:
     return sdp_pdu(0x02, tid, de_seq(b''.join(de_uuid16(u) for u in uuids16)) + be16(max_count) + cont)
 
 
-def sdp_nested(depth: int, idx: int = 6, honest: bool = True, leaf: bytes = b'\x19\x11\x01') -> bytes:
-    """`depth` sequences inside each other. honest: every header carries the true size;
-    otherwise every header claims the maximum its size field can hold."""
+def sdp_nested(depth: int, idx: int = 6, honest: bool = True, leaf: bytes = b'\x19\x11\x01', kind: str = 'seq') -> bytes:
+    """`depth` sequences / alternatives inside each other. honest: every header carries the
+    true size; otherwise every header claims the maximum its size field can hold.
+    kind: 'seq' (all sequences), 'alt' (outermost sequence, alternatives inside), 'mixed'."""
     body = leaf
-    for _ in range(depth):
+    for level in range(depth):
+        outermost = level == depth - 1
+        t = 6 if (kind == 'seq' or outermost or (kind == 'mixed' and level & 1)) else 7
         if honest:
-            body = de_seq(body, idx)
+            body = de_hdr(t, len(body), idx) + body
         else:
-            body = bytes([0x30 | idx]) + b'\xFF' * {5: 1, 6: 2, 7: 4}[idx] + body
+            body = bytes([(t << 3) | idx]) + b'\xFF' * {5: 1, 6: 2, 7: 4}[idx] + body
     return body
 
 
@@ -525,6 +528,9 @@ def sdp_corpus(handle: int) -> list[Pdu]:
 def sdp_deep_frames(rng: random.Random, max_bytes: int):
     """Deep-nesting frames (up to depth 2000 when the byte budget allows)."""
     out = []
+    wraps = ((0x02, lambda n: n + be16(5) + b'\x00'),
+             (0x06, lambda n: n + be16(100) + de_seq(de_uint32(0xFFFF)) + b'\x00'),
+             (0x04, lambda n: struct.pack('>I', 0x10001) + be16(100) + n + b'\x00'))
     for depth in (31, 32, 33, 64, 127, 400, 1000, 2000):
         for idx, honest in ((5, False), (6, True), (6, False), (7, True), (7, False), (5, True)):
             per = {5: 2, 6: 3, 7: 5}[idx]
@@ -532,12 +538,11 @@ def sdp_deep_frames(rng: random.Random, max_bytes: int):
                 continue
             if depth * per + 16 > max_bytes:
                 continue
-            nest = sdp_nested(depth, idx, honest)
-            for pid, wrap in ((0x02, lambda n: n + be16(5) + b'\x00'),
-                              (0x06, lambda n: n + be16(100) + de_seq(de_uint32(0xFFFF)) + b'\x00'),
-                              (0x04, lambda n: struct.pack('>I', 0x10001) + be16(100) + n + b'\x00')):
-                out.append((f'deep-nesting', f'sdp/nest-{depth}-idx{idx}-{"honest" if honest else "lying"}-pdu{pid}',
-                            sdp_pdu(pid, 9, wrap(nest))))
+            for kind in ('seq', 'alt', 'mixed'):
+                nest = sdp_nested(depth, idx, honest, kind=kind)
+                for pid, wrap in wraps:
+                    out.append(('deep-nesting', f'sdp/nest-{kind}-{depth}-idx{idx}-{"honest" if honest else "lying"}-pdu{pid}',
+                                sdp_pdu(pid, 9, wrap(nest))))
     return out
 
 
